@@ -1412,6 +1412,8 @@ int safec_vsnprintf_s(out_fct_type out, const char *funcname, char *buffer,
         }
     }
 
+    if ((long)idx < 0) // the last directive failed and has reported it
+        return idx;
     // termination for s*printf only
     if (out == safec_out_buffer) {
         rc = out((char)0, buffer, idx, bufsize);
